@@ -286,6 +286,7 @@ LEMMAS["mul_mono"] = _lem(  # a <= b, m >= 0 ==> a*m <= b*m
     lambda a, b, m: not (m >= 0 and a <= b) or a * m <= b * m,
     [_G, _G, _G],
 )
+LEMMAS["pow2_8"] = _lem(0, lambda: z3.And(pow2(8) == 256, pow2(7) == 128, pow2(4) == 16), lambda: True, [])
 LEMMAS["band_clear_low"] = _lem(  # x & ~(2^k - 1) == x & -(2^k): the low k bits cleared
     2,
     lambda x, k: z3.Implies(k >= 0, band(x, -pow2(k)) == (x / pow2(k)) * pow2(k)),
